@@ -35,6 +35,12 @@ def generate(rng, tier):
             shape, defx, defy, xs, ys, flat = c04.gen_grid(rng, "Q")
             qx, qy = c04.queries2(rng, xs, ys, 4, "Q", ext=ext)
             cases.append({"line": i2_line("Q", xs, ys, shape, flat, ext, e_array("Q", [len(qx)], qx, qy)), "meta": {}})
+    for _ in range(max(3, gen.N(tier, 150, 3000) // 15)):
+        n = rng.choice([20, 70, 200])
+        xs = gen.long_axis(rng, rng.choice(gen.LONG_KINDS), n, "Q")
+        qs = [(a + b) / 2 for a, b in zip(xs, xs[1:])]
+        rng.shuffle(qs)
+        cases.append({"line": i1_line("Q", xs, [n], gen.vals_q(rng, n), ("lin", False), e_array("Q", [12], qs[:10] + [xs[0], xs[-1]])), "meta": {}})
     return cases
 
 
@@ -148,6 +154,48 @@ def extra(rng, tier):
                 y2 = move_knots(rng, S, ys, {j, j + 1})
                 lines.append(i2_line(S, x2, y2, shape, flat, ext, e_array(S, [1], [x], [y]), xlay=lx, ylay=ly, dlay=ld))
                 var.append(len(lines) - 1)
+            groups.append((base, var))
+    # long unevenly spaced axes (seed C20-r5m2: a search window next to the first guess only matters when the guess is more than
+    # 16 intervals off, i.e. on axes much denser at one end): every row but the bracketing two is poisoned / every other knot moved
+    for _ in range(max(4, reps // 10)):
+        S = rng.choice(["F", "F", "Q"])
+        ext = rng.random() < 0.3
+        n = rng.choice([20, 40, 70, 120, 200])
+        xs = gen.long_axis(rng, rng.choice(gen.LONG_KINDS), n, S)
+        lx, ld = rng.choice(gen.LAYS_1D), rng.choice(gen.LAYS_ND)
+        two = rng.random() < 0.35
+        for _ in range(4):
+            i = rng.randrange(n - 1)
+            q = (xs[i] + xs[i + 1]) / 2 if rng.random() < 0.7 else xs[i]
+            base = len(lines)
+            var = []
+            if not two:
+                flat = gen.vals_q(rng, n) if S == "Q" else [rng.uniform(-9, 9) for _ in range(n)]
+                lines.append(i1_line(S, xs, [n], flat, ("lin", ext), e_array(S, [1], [q]), xlay=lx, dlay=ld))
+                for _ in range(2):
+                    f2 = list(flat)
+                    for r in range(n):
+                        if r not in (i, i + 1):
+                            f2[r:r + 1] = poison_vals(rng, S, 1)
+                    lines.append(i1_line(S, xs, [n], f2, ("lin", ext), e_array(S, [1], [q]), xlay=lx, dlay=ld))
+                    var.append(len(lines) - 1)
+                x2 = move_knots(rng, S, xs, {i, i + 1})
+                lines.append(i1_line(S, x2, [n], flat, ("lin", ext), e_array(S, [1], [q]), xlay=lx, dlay=ld))
+                var.append(len(lines) - 1)
+            else:
+                # Bilinear: short even x axis, long y axis
+                xa = [Fr(0), Fr(1), Fr(2)] if S == "Q" else [0.0, 1.0, 2.0]
+                qa = Fr(1, 2) if S == "Q" else 0.5
+                flat = gen.vals_q(rng, 3 * n) if S == "Q" else [rng.uniform(-9, 9) for _ in range(3 * n)]
+                lines.append(i2_line(S, xa, xs, [3, n], flat, ext, e_array(S, [1], [qa], [q]), ylay=lx, dlay=ld))
+                for _ in range(2):
+                    f2 = list(flat)
+                    for a in range(3):
+                        for b in range(n):
+                            if not (a in (0, 1) and b in (i, i + 1)):
+                                f2[a * n + b:a * n + b + 1] = poison_vals(rng, S, 1)
+                    lines.append(i2_line(S, xa, xs, [3, n], f2, ext, e_array(S, [1], [qa], [q]), ylay=lx, dlay=ld))
+                    var.append(len(lines) - 1)
             groups.append((base, var))
     outs = vlib.run_impl_only(ID, lines, tag="extra")
     fails = []
